@@ -47,6 +47,7 @@ CLAUSE_CAVEATS = [
     "run_transparent / run_feed_is_writes cover exception-free programs (C02.opClean: no handler-set Content-Length / Transfer-Encoding, body-carrying statuses) on non-HEAD requests without an If-None-Match hit; HEAD, 304/204/1xx, handler-set Content-Length and the error path (send_error re-entering finish) are decided by the tie with real zlib",
     "decoded_per_content_encoding additionally assumes no handler-set Content-Encoding (opClean29); with one, the client-side decoding is the handler's business (ASSUMPTIONS) and run_transparent still gives the framing + body",
     "wire_content_length_is_encoded_length (Content-Length on the wire = length of the encoded body) covers clean programs, where the Content-Length is the automatic one rewritten by the transform; a handler-set Content-Length (rewritten when finishing in the first chunk, dropped when streaming: cl_equals_encoded_length / cl_dropped_when_streaming, transform level) is judged on the wire by the C02 framing oracle",
+    "vary_on_every_response speaks about every header block write_headers recorded (and proves the wire starts with it); that nothing is on the wire when no block was recorded (aborted first write) is tie only",
 ]
 CLAUSES = {
     "a client that decodes the body according to Content-Encoding obtains exactly the bytes written":
